@@ -21,6 +21,7 @@
 import Lc.Lemmas.RunM
 import Lc.Lemmas.Busy
 import Lc.Lemmas.Probe
+import Lc.Lemmas.TreeOrder
 
 namespace Lc.Props.C04
 open Lc Lc.Layers Lc.RunM Lc.Mountinfo Lc.Busy Lc.Hoare Lc.Probe Lc.Forest
@@ -213,26 +214,19 @@ theorem classify_rest (cfg : Config) (l : Layer) (users : List User) :
 theorem mounts_listed (m : Mounts) (path : Bytes) :
     getMountAndSubmounts m path ≠ [] ↔
       ∃ x ∈ m.list, x.mountpoint = path ∨ hasPrefix x.mountpoint (path ++ [47]) = true := by
-  unfold getMountAndSubmounts
   constructor
   · intro h
     obtain ⟨x, hx⟩ := List.exists_mem_of_ne_nil _ h
-    rw [mem_sortBy, List.mem_filter] at hx
-    exact ⟨x, hx.1, by simpa using hx.2⟩
+    exact ⟨x, ((TreeOrder.mem_getMountAndSubmounts m path x).mp hx).1,
+      ((TreeOrder.mem_getMountAndSubmounts m path x).mp hx).2⟩
   · rintro ⟨x, hx, hp⟩
-    have : x ∈ sortBy (fun a b => bytesLt a.mountpoint b.mountpoint)
-        (m.list.filter fun x => x.mountpoint == path || hasPrefix x.mountpoint (path ++ [47])) := by
-      rw [mem_sortBy, List.mem_filter]
-      exact ⟨hx, by simpa using hp⟩
-    exact List.ne_nil_of_mem this
+    exact List.ne_nil_of_mem ((TreeOrder.mem_getMountAndSubmounts m path x).mpr ⟨hx, hp⟩)
 
 /-- … and it lists exactly those mounts -/
 theorem mounts_listed_mem (m : Mounts) (path : Bytes) (x : MountType) :
     x ∈ getMountAndSubmounts m path ↔
-      x ∈ m.list ∧ (x.mountpoint = path ∨ hasPrefix x.mountpoint (path ++ [47]) = true) := by
-  unfold getMountAndSubmounts
-  rw [mem_sortBy, List.mem_filter]
-  simp
+      x ∈ m.list ∧ (x.mountpoint = path ∨ hasPrefix x.mountpoint (path ++ [47]) = true) :=
+  TreeOrder.mem_getMountAndSubmounts m path x
 
 /-- refreshMountInfo reads the table and sets Overlain per layer, nothing else -/
 theorem refresh_sets_overlain (cfg : Config) (d : Defs) (w : World) (m : Mounts)
